@@ -109,6 +109,7 @@ type event struct {
 	Kind string
 	Port string
 	Meta messaging.MsgMeta
+	T    uint64 // engine time of the tick that logged it (only when the agent has a clock)
 }
 
 type pending struct {
@@ -125,6 +126,14 @@ type agent struct {
 	pp    []Pull
 	tick  int
 	log   *[]event
+	now   func() uint64
+}
+
+func (a *agent) t() uint64 {
+	if a.now == nil {
+		return 0
+	}
+	return a.now()
 }
 
 func (a *agent) Tick() bool {
@@ -133,7 +142,7 @@ func (a *agent) Tick() bool {
 		h := a.queue[0]
 		if a.tick >= h.at && h.port.CanSend() {
 			h.port.Send(h.meta)
-			*a.log = append(*a.log, event{"S", h.port.Name(), h.meta})
+			*a.log = append(*a.log, event{Kind: "S", Port: h.port.Name(), Meta: h.meta, T: a.t()})
 			a.queue = a.queue[1:]
 		}
 		progress = true // keep ticking until everything is handed over
@@ -152,7 +161,7 @@ func (a *agent) Tick() bool {
 			if m == nil {
 				break
 			}
-			*a.log = append(*a.log, event{"R", p.Name(), m.Meta()})
+			*a.log = append(*a.log, event{Kind: "R", Port: p.Name(), Meta: m.Meta(), T: a.t()})
 			progress = true
 		}
 	}
